@@ -40,6 +40,7 @@ class Obligation:
     model_vars: dict = field(default_factory=dict)  # name -> z3 term, evaluated in a counter-model for replay
     group: str = ""  # alternative proofs of ONE clause: the clause is discharged when its `whole` is, or when all its `part`s are
     role: str = ""
+    prefer: str = ""  # the portfolio entry that discharged this obligation (slowly) on the unchanged tree: tried first (baseline/<id>.prefer)
 
 
 class Flow:
